@@ -210,6 +210,10 @@ def clause_observers(cases, ctx: Ctx):
 
 def clause_crossproc(cases, ctx: Ctx):
     out = []
+    # this process gets a different CONSTRUCTION history than the fresh child: before anything is trained here, algorithm objects with
+    # the same learning rates but otherwise different hyper-parameters are constructed and thrown away.  Training must be a function
+    # of its inputs, not of which other objects exist(ed) in the process.
+    _decoys()
     for ci, c in enumerate(cases):
         base = run_once(c, c["observers"])[0]
         q = mp.get_context("spawn").Queue()
@@ -221,6 +225,17 @@ def clause_crossproc(cases, ctx: Ctx):
         if other != base:
             out.append((ci, "C11/not-reproducible/second-process", f"{c['algo']} env={c['env']} key={c['key']} observers={c['observers']}: a run in a fresh process returned different parameters"))
     return out
+
+
+def _decoys():
+    alt = {
+        "PPO": dict(max_grad_norm=1e-3, clip_coefficient=0.9, gamma=0.1, entropy_loss_coefficient=0.5, value_loss_coefficient=0.01, normalize_advantages=True),
+        "A2C": dict(max_grad_norm=1e-3, gamma=0.1, entropy_loss_coefficient=0.5, value_loss_coefficient=0.01),
+        "REINFORCE": dict(max_grad_norm=1e-3, gamma=0.1, value_loss_coefficient=0.01),
+        "DQN": dict(max_grad_norm=1e-3, gamma=0.1, target_update_interval=1),
+        "SAC": dict(tau=0.9, gamma=0.1, policy_frequency=3, autotune=False, initial_alpha=5.0),
+    }
+    return [learnx.make_algo(name, 3, 5, **kw) for name, kw in alt.items()]
 
 
 def clause_keys(cases, ctx: Ctx):
